@@ -13,7 +13,7 @@ import (
 
 // R10.4 query discipline
 var ruleQueryDiscipline = &core.Rule{ID: "R10.4", Min: 8,
-	Doc: "query discipline of the object scanner: for every key (unless the query is already satisfied) the path is matched against every query, by full path equality; the member is judged immediately after its value was consumed, before any other exit; the verdict flag is set only under path match and (no accepted values, or equality of an accepted value with the trimmed value bytes), over all accepted values; the flag is never cleared outside the reset routine; the judgement may sit in a verified helper or bool predicate that receives the matched query and exactly this member's value bytes; path equality may be slices.EqualFunc with bytes.Equal",
+	Doc: "query discipline of the object scanner: for every key (unless the query is already satisfied) the path is matched against every query (range loop, or slices.IndexFunc with an equality callback; the answer an index / -1 or a query pointer / nil), by full path equality; the member is judged immediately after its value was consumed, before any other exit; the verdict flag is set only under path match and (no accepted values, or equality of an accepted value with the trimmed value bytes), over all accepted values; the flag is never cleared outside the reset routine; the judgement may sit in a verified helper or bool predicate that receives the matched query and exactly this member's value bytes; path equality may be slices.EqualFunc with bytes.Equal",
 	Run: func(c *core.Ctx, s *core.Sink) {
 		m := getJSON(c)
 		// verdict flag: field returned as last result by the entry
